@@ -8,7 +8,7 @@ _CACHE = {}
 
 def make_prior(kind="default", poly_trend=1, n_offsets=0, sigma_K0=30.0, P0_days=365.25, sigma_v=(100.0, 2.0, 0.05),
                mu_v=(0.0, 0.0, 0.0), K_custom=(0.0, 25.0), off_sig=(3.0, 5.0), off_mu=(0.0, 0.0), v_unit="km/s",
-               P_unit="day", P_lim=(1.0, 1000.0), s_const=0.0, cache=True, K_unit=None, v_time_unit="day", P0_unit="day", int_consts=False):
+               P_unit="day", P_lim=(1.0, 1000.0), s_const=0.0, cache=True, K_unit=None, v_time_unit="day", P0_unit="day", int_consts=False, mu_K=0.0):
     """Returns (JokerPrior, declared) - declared holds plain numbers in km/s and days."""
     import astropy.units as u
     import pymc as pm
@@ -17,7 +17,7 @@ def make_prior(kind="default", poly_trend=1, n_offsets=0, sigma_K0=30.0, P0_days
     from thejoker.distributions import FixedCompanionMass
 
     key = (kind, poly_trend, n_offsets, sigma_K0, P0_days, tuple(sigma_v), tuple(mu_v), tuple(K_custom), tuple(off_sig), tuple(off_mu),
-           v_unit, P_unit, tuple(P_lim), s_const, K_unit, v_time_unit, P0_unit, int_consts)
+           v_unit, P_unit, tuple(P_lim), s_const, K_unit, v_time_unit, P0_unit, int_consts, mu_K)
 
     def num(x):
         # int_consts: integral prior constants are written as Python ints, as in the documentation's examples
@@ -46,6 +46,16 @@ def make_prior(kind="default", poly_trend=1, n_offsets=0, sigma_K0=30.0, P0_days
                 pars[f"v{i}"] = xu.with_unit(pm.Normal(f"v{i}", num(mu_v[i] * vf * tf**i), num(sigma_v[i] * vf * tf**i)), vu / tu**i)
         if kind == "custom":
             pars["K"] = xu.with_unit(pm.Normal("K", num(K_custom[0] * Kf), num(K_custom[1] * Kf)), Ku)
+        elif mu_K:
+            # the default (period- and eccentricity-scaled) K prior built directly, with a NON-ZERO mean: the nonlinear priors it
+            # depends on have to be declared first
+            from thejoker.distributions import Kipping13Global, UniformLog
+
+            Pv_ = xu.with_unit(UniformLog("P", P_lim[0] * Pf, P_lim[1] * Pf), Pu)
+            ev_ = xu.with_unit(Kipping13Global("e"), u.one)
+            P0q = (P0_days * u.day) if P0_unit == "day" else (P0_days / 365.25 * u.yr)
+            pars["P"], pars["e"] = Pv_, ev_
+            pars["K"] = xu.with_unit(FixedCompanionMass("K", P=Pv_, e=ev_, sigma_K0=sigma_K0 * Kf * Ku, P0=P0q, mu=mu_K * Kf), Ku)
         sv = [sigma_v[i] * vf * tf**i * vu / tu**i for i in range(poly_trend)]
         prior = tj.JokerPrior.default(
             P_min=P_lim[0] * Pf * Pu, P_max=P_lim[1] * Pf * Pu, sigma_K0=sigma_K0 * Kf * Ku, P0=(P0_days * u.day) if P0_unit == "day" else (P0_days / 365.25 * u.yr),
@@ -66,7 +76,7 @@ def make_prior(kind="default", poly_trend=1, n_offsets=0, sigma_K0=30.0, P0_days
     if kind == "custom":
         declared = dict(kind="custom", mu_K=K_custom[0], sigma_K=K_custom[1], mu=mu, sig=sig)
     else:
-        declared = dict(kind="default", sigma_K0=sigma_K0, P0=P0_days, max_K=500.0, mu_K=0.0, mu=mu, sig=sig)
+        declared = dict(kind="default", sigma_K0=sigma_K0, P0=P0_days, max_K=500.0, mu_K=mu_K, mu=mu, sig=sig)
     declared["P_prior_unit_in_days"] = (1 * Pu).to_value(u.day)
     declared["poly_trend"] = poly_trend
     declared["n_offsets"] = n_offsets
